@@ -40,7 +40,7 @@ LEVEL_TEXT = ("Theorems (Lean 4 kernel, core only): the model of _read_tle/_get_
               "custom iff PYORBITAL_CONFIG_PATH holds platforms.txt and never depends on PPP_CONFIG_DIR. The model is tied to "
               "tlefile.py by the exhaustive configuration product (exact agreement).")
 LEVEL_NOTE = ("Trusted: Lean kernel; axioms propext, Quot.sound, Classical.choice; the hand-written model PV.Model.Sources and the "
-              "correspondence harness (interposition of urlopen/requests/socket, file ctimes produced by creation order).")
+              "correspondence harness (interposition of urlopen/requests/socket, file ctimes produced by creation order, mtimes/atimes set in the opposite order).")
 TECHNIQUE = ("Lean 4 proof by case analysis + list induction over an executable model; differential correspondence, exhaustive "
              "over the property's configuration product")
 
@@ -103,12 +103,17 @@ def _create_in_order(paths_texts):
             if os.path.exists(p):
                 os.unlink(p)
         time.sleep(pause)
-        for p, txt in paths_texts:
+        base = time.time() - 86400.0
+        for i, (p, txt) in enumerate(paths_texts):
             with open(p, "w") as f:
                 f.write(txt)
+            # modification and access times run AGAINST the change times (as after `cp -p`, rsync -t, tar): setting them
+            # is itself a status change, so the ctime stays "now" and keeps increasing in creation order
+            os.utime(p, (base - 3600.0 * i, base - 3600.0 * i))
             time.sleep(pause)
         cts = [os.path.getctime(p) for p, _ in paths_texts]
-        if all(a < b for a, b in zip(cts, cts[1:])):
+        mts = [os.path.getmtime(p) for p, _ in paths_texts]
+        if all(a < b for a, b in zip(cts, cts[1:])) and all(a > b for a, b in zip(mts, mts[1:])):
             return cts
     raise RuntimeError("file system does not give strictly increasing ctimes: %r" % (cts,))
 
